@@ -38,6 +38,9 @@ fn alphabet_a() -> Vec<Op> {
         a(K::Read(2)),
         a(K::Read(5)),
         a(K::Read(300)),
+        a(K::ReadToEnd),
+        a(K::ReadExact(5)),
+        a(K::ReadVectored),
     ]
 }
 
@@ -59,6 +62,8 @@ fn alphabet_a_small() -> Vec<Op> {
         // an anchored read held across other operations and pushed late
         a(K::HoldRead(70)),
         a(K::HeldPush),
+        a(K::ReadBytes(3)),
+        a(K::ReadToEnd),
     ]
 }
 
@@ -630,6 +635,11 @@ fn run(ctx: &Ctx) -> Report {
             let b_core: Vec<Op> = alphabet_b().into_iter().filter(|o| o.k != K::ClonePending).collect();
             explore(ctx, &mut rep, "C04", "C04 alphabet B", b_core, Start::Fresh, vec![], t.pick(7, 8));
             explore(ctx, &mut rep, "C04", "C04 alphabet B + clone while pending", alphabet_b(), Start::Fresh, vec![], t.pick(6, 7));
+            // the byte-stream views: Read::read and the provided Read methods an implementation may override
+            let mut b_read: Vec<Op> = alphabet_b().into_iter().filter(|o| !matches!(o.k, K::ClonePending | K::Register(0) | K::Backfill(2) | K::Burn(4) | K::FlushCache)).collect();
+            b_read.extend([a(K::Read(2)), a(K::ReadToEnd), a(K::ReadVectored), a(K::ReadBytes(3))]);
+            explore(ctx, &mut rep, "C04", "C04 alphabet B (reduced) + Read views", b_read.clone(), Start::Fresh, vec![], t.pick(6, 7));
+            explore_cycles(ctx, &mut rep, "C04", "C04 cycles, alphabet B (reduced) + Read views", b_read, Start::Fresh, vec![], t.pick(3, 4), t.pick(16, 40));
             for (name, seed) in seeds() {
                 explore(ctx, &mut rep, "C04", &format!("C04 alphabet B after seed {}", name), alphabet_b(), Start::Fresh, seed, t.pick(4, 6));
             }
